@@ -805,3 +805,139 @@ func returnsOnlyIf(a *Analysis, fn *ssa.Function, val bool, axioms [][]int32, li
 	}
 	return n, ok
 }
+
+// whoMayCatch: the functions of the contracts that hold an exception-catching frame (a deferred closure
+// calling recover), confirmed by reading: the container contract tolerates a failing NNS clean-up of an alias
+// on delete, and nothing else. The whole failure model — "a refused operation faults, a faulted invocation
+// persists nothing" — rests on exceptions not being caught: inside a catching frame a sub-call that has
+// already returned normally stays committed when a later one throws, and a refusal turns into success.
+// The entry is stated by what the frame protects, not by the function's name: a function of the container
+// contract whose only effect is one call of another contract's "deleteRecords".
+var whoMayCatch = map[string]string{
+	"container: one contract.Call(…, \"deleteRecords\", …) and nothing else": "alias clean-up on delete: an NNS record that is already gone or expired must not keep the container alive",
+}
+
+// allowedCatchingFrame: f is the catching frame of the table (by shape).
+func allowedCatchingFrame(f *ssa.Function) (bool, string) {
+	if f.Pkg == nil || !strings.HasSuffix(f.Pkg.Pkg.Path(), "/contracts/container") {
+		return false, ""
+	}
+	calls := 0
+	for _, b := range f.Blocks {
+		for _, ins := range b.Instrs {
+			ci, ok := ins.(*ssa.Call)
+			if !ok {
+				continue
+			}
+			cal := ci.Common().StaticCallee()
+			if cal == nil {
+				continue
+			}
+			switch fq(cal) {
+			case "contract.Call":
+				m, isC := ci.Common().Args[1].(*ssa.Const)
+				if !isC || m.Value == nil || m.Value.Kind() != constant.String || constant.StringVal(m.Value) != "deleteRecords" {
+					return false, ""
+				}
+				calls++
+			case "storage.Put", "storage.Delete", "runtime.Notify":
+				return false, ""
+			}
+		}
+	}
+	if calls != 1 {
+		return false, ""
+	}
+	for k, v := range whoMayCatch {
+		return true, k + " — " + v
+	}
+	return false, ""
+}
+
+// checkCatchingFrames (catching-frame): every function with a catching frame that some method of the given
+// contracts can reach (their own functions and the helpers of common they inline) is in the who-may-catch
+// table. Also undecided: a catching frame the table names that is gone says nothing (no floor).
+func checkCatchingFrames(cx *CheckCtx, contracts ...string) {
+	n := 0
+	seen := map[*ssa.Function]bool{}
+	for _, cn := range contracts {
+		c := cx.contract(cn)
+		if c == nil {
+			continue
+		}
+		ms := append([]*Method{}, c.Methods...)
+		if d := cx.method(cn, "_deploy"); d != nil {
+			ms = append(ms, d)
+		}
+		for _, m := range ms {
+			var walk func(f *ssa.Function, depth int)
+			walk = func(f *ssa.Function, depth int) {
+				if f == nil || seen[f] || f.Blocks == nil || depth > 12 {
+					return
+				}
+				seen[f] = true
+				n++
+				if hasRecover(f) {
+					name := fq(f)
+					allowed, why := allowedCatchingFrame(f)
+					cx.decide(allowed, "catching-frame", name, "a catching frame of the who-may-catch table: "+why, name+" (reached from "+cn+"."+m.GoName+") catches exceptions with a deferred recover and is not in the who-may-catch table: inside it a refusal or a fault of a sub-call no longer faults the invocation — what already happened stays committed, what was refused is reported as done", cx.W.pos(f.Pos()))
+				}
+				for _, b := range f.Blocks {
+					for _, ins := range b.Instrs {
+						if ci, ok := ins.(ssa.CallInstruction); ok {
+							if cal := ci.Common().StaticCallee(); cal != nil && cal.Pkg != nil && strings.HasPrefix(cal.Pkg.Pkg.Path(), modPrefix) {
+								walk(cal, depth+1)
+							}
+						}
+					}
+				}
+				for _, an := range f.AnonFuncs {
+					walk(an, depth+1)
+				}
+			}
+			walk(m.Fn, 0)
+		}
+	}
+	cx.count("functions_checked_for_catching_frames", n)
+}
+
+// checkAbortNotThrow (abort-not-throw): the helper of `common` through which the payment callbacks refuse ends
+// in util.Abort (ABORT cannot be caught by the calling token contract) and holds no panic (THROW can: a
+// paying contract that recovers would book a payment the receiver refused).
+func checkAbortNotThrow(cx *CheckCtx) {
+	p := cx.W.ByPath[modPrefix+"common"]
+	if p == nil {
+		return
+	}
+	var ab *ssa.Function
+	for _, f := range allFuncs(cx.W.Prog.Package(p.Types)) {
+		if f.Blocks != nil && directCallees(f)["util.Abort"] > 0 {
+			ab = f
+		}
+	}
+	if ab == nil {
+		cx.violated("abort-not-throw", "common/abort-helper", "no function of common ends in util.Abort any more: the refusals of the payment callbacks are ordinary exceptions, which a paying contract can catch — it then books a payment the receiver has refused", "common")
+		return
+	}
+	hasPanic := false
+	for _, b := range ab.Blocks {
+		if _, isP := b.Instrs[len(b.Instrs)-1].(*ssa.Panic); isP {
+			hasPanic = true
+		}
+	}
+	cx.decide(!hasPanic, "abort-not-throw", fq(ab), "refuses with ABORT on every path", fq(ab)+" can refuse with a panic (THROW) instead of ABORT: a caller that recovers goes on as if the payment had been accepted", cx.W.pos(ab.Pos()))
+	// … and every refusal of a payment callback goes through it (or through util.Abort itself)
+	for _, cn := range []string{"alphabet", "neofs", "processing", "proxy"} {
+		m := cx.method(cn, "OnNEP17Payment")
+		if m == nil {
+			continue
+		}
+		own := false
+		for _, b := range m.Fn.Blocks {
+			if _, isP := b.Instrs[len(b.Instrs)-1].(*ssa.Panic); isP {
+				own = true
+			}
+		}
+		cx.decide(!own, "abort-not-throw", cn+".OnNEP17Payment", "no refusal by panic in the callback itself", cn+".OnNEP17Payment refuses with a panic: catchable by the paying contract", cx.W.pos(m.Fn.Pos()))
+	}
+}
